@@ -17,9 +17,7 @@ func main() {
 		}
 	}
 	t0 := time.Now()
-	nt := consnet.NewNet(sc, "/verif/.work/cnprobe/run")
-	res := nt.Run()
-	nt.StopAll()
+	res := consnet.DefaultRun(sc, "/verif/.work/cnprobe/run")
 	for _, l := range res.Trace {
 		fmt.Println(l)
 	}
